@@ -168,6 +168,7 @@ type Machine struct {
 	onceDone     map[*Value]bool
 	merge        *mergeScope // innermost merge scope (merge.go)
 	Merged       int
+	LoopMemoHits int
 	NoMerge      bool
 	MergeAborts  int
 }
